@@ -1522,8 +1522,15 @@ class Interp:
                 for k in v:
                     if k is idx:
                         return v[k]
+                if isinstance(v, getattr(self, "DDict", ())) and v.factory is not None:
+                    self.mutating(v)
+                    v[idx] = self.call(v.factory, [], {})
+                    return v[idx]
                 # enum / hashable objects compare by identity here
                 self.raise_py("KeyError", SymStr(repr(idx)))
+            if isinstance(v, getattr(self, "DDict", ())) and v.factory is not None and idx not in v:
+                self.mutating(v)
+                v[idx] = self.call(v.factory, [], {})
             return self.native(lambda: v[idx])
         if isinstance(v, Opaque):
             if self.loading or getattr(self, "permissive_opaque", False):
